@@ -184,11 +184,22 @@ func suiteServer(o *Out, r *Rng, n int, tier string) {
 			// a consumer that never reads: overflow its channel, then drain it
 			o.Stat("server.overflow_case", 1)
 			victim := r.Intn(nsubs)
+			// half of the time nobody reads at all: every registered subscriber overflows and stays registered, closed,
+			// when a newcomer subscribes afterwards
+			allStall := r.Intn(2) == 0
 			for j := 0; j < 215; j++ {
 				ops = append(ops, []string{"push", fmt.Sprintf("o%d", j)})
-				if r.Intn(40) == 0 && nsubs > 1 {
+				if !allStall && r.Intn(40) == 0 && nsubs > 1 {
 					ops = append(ops, []string{"recv", fmt.Sprint(r.Intn(nsubs))})
 				}
+			}
+			if allStall {
+				o.Stat("server.every_subscriber_overflowed_before_a_newcomer", 1)
+				ops = append(ops, []string{"sub", fmt.Sprint(r.Intn(5))}, []string{"push", "late0"}, []string{"push", "late1"})
+				for j := 0; j < 8; j++ {
+					ops = append(ops, []string{"recv", fmt.Sprint(nsubs)})
+				}
+				nsubs++
 			}
 			for j := 0; j < 222; j++ {
 				ops = append(ops, []string{"recv", fmt.Sprint(victim)})
